@@ -2,6 +2,8 @@
 
 package proxyserver
 
+import "time"
+
 // C10 (A) — containment: a failure or a panic raised while serving one connection - in a TLS
 // callback, in the capture, on the HTTP/2 serve loop, in the HTTP/1.1 hand-off - never escapes
 // the connection goroutine (an escaping panic terminates the Go process).
@@ -10,6 +12,12 @@ func VerifC10_contain() {
 	server := psSetup(true, true)
 	psProto()
 	server.VerboseLogs = vBool("verbose")
+	if vBool("handshakeTimeoutSet") {
+		server.TLSHandshakeTimeout = 10 * time.Second
+	}
+	// goroutines the code under test starts for this connection are run when it blocks; a panic
+	// escaping one of them is not stopped by any recover on the connection goroutine
+	vSchedule()
 	escaped := vCatch(func() { server.serveConn(ps.conn) })
 	vReach("connection-goroutine-ended")
 	if evIndex("h2.ServeConn") >= 0 && evIndex("h2.ServeConn.returned") < 0 {
